@@ -8,6 +8,7 @@ from torch import Tensor
 from pfhedge._utils.doc import _set_attr_and_docstring
 from pfhedge._utils.doc import _set_docstring
 from pfhedge._utils.str import _format_float
+from pfhedge._utils.time import n_time_points
 from pfhedge._utils.typing import TensorOrScalar
 from pfhedge.stochastic import generate_heston
 
@@ -129,7 +130,7 @@ class HestonStock(BasePrimary):
 
         output = generate_heston(
             n_paths=n_paths,
-            n_steps=ceil(time_horizon / self.dt + 1),
+            n_steps=n_time_points(time_horizon, self.dt),
             init_state=init_state,
             kappa=self.kappa,
             theta=self.theta,
